@@ -25,7 +25,17 @@ fn c13_image(cb: u32) -> ImageSet {
 
 pub fn c13() -> i32 {
     let run = Run::new("C13", "exploration");
-    let imgs: Vec<ImageSet> = [9u32, 12, 16].iter().map(|cb| c13_image(*cb)).collect();
+    let mut imgs: Vec<ImageSet> = [9u32, 12, 16].iter().map(|cb| c13_image(*cb)).collect();
+    // a virtual size that is a sector multiple but no multiple of the bigger block sizes (write verdicts only:
+    // the partial last block is the one place where "within the virtual size" and "block aligned" disagree)
+    imgs.push({
+        let mut s = ImageSpec::new(12, 4, (31 << 12) + 512);
+        s.kinds = vec![GKind::Unalloc; 32];
+        s.kinds[0] = GKind::Data;
+        s.kinds[31] = GKind::Data;
+        from_specs("c13-ragged", "data", vec![s])
+    });
+    const RAGGED: usize = 3;
     let mut cases: Vec<(usize, u8, &'static str, &'static str, u64, usize)> = vec![];
     for (ii, img) in imgs.iter().enumerate() {
     let v = img.rd.vsize;
@@ -35,17 +45,23 @@ pub fn c13() -> i32 {
             continue;
         }
         let bs = 1u64 << bs_bits;
-        let offs = [0, 1, bs / 2, bs - 1, bs, v - bs, v - 1, v, v + 1, v + bs, 1 << 32, 1 << 63, u64::MAX - bs + 1, u64::MAX - 1, u64::MAX];
+        let mut offs = vec![0, 1, bs / 2, bs - 1, bs, v - bs, v - 1, v, v + 1, v + bs, 1 << 32, 1 << 63, u64::MAX - bs + 1, u64::MAX - 1, u64::MAX];
+        if ii == RAGGED {
+            offs.extend([v & !(bs - 1), (v & !(bs - 1)) - bs, (v & !(bs - 1)) + bs, v - 512]);
+        }
         let lens = [0usize, 1, (bs - 1) as usize, bs as usize, (bs + 1) as usize, (2 * bs) as usize, cs as usize, (cs + bs) as usize, (3 * cs) as usize];
         for mode in ["rw", "ro", "backing"] {
             for op in ["read", "write", "discard"] {
-                for o in offs {
+                if ii == RAGGED && op != "write" {
+                    continue;
+                }
+                for &o in offs.iter() {
                     for l in lens {
                         cases.push((ii, bs_bits, mode, op, o, l));
                     }
                 }
                 if op == "discard" {
-                    for o in offs {
+                    for &o in offs.iter() {
                         for l in [v, u64::MAX, u64::MAX - cs] {
                             cases.push((ii, bs_bits, mode, "discard-big", o, l as usize));
                         }
@@ -184,7 +200,7 @@ pub fn c13() -> i32 {
                         if modified || file_changed {
                             out.push(mk(format!("write:side-effect-on-{}", if res.is_err() { "error" } else { "empty-write" }), "a rejected / empty write sent a modifying request".into()));
                         }
-                    } else if res.is_ok() && !must_fail {
+                    } else if res.is_ok() && !must_fail && ii != RAGGED {
                         // content check
                         let mut rd = img.rd.clone();
                         rd.write(off, len, 0x77);
@@ -226,7 +242,7 @@ pub fn c13() -> i32 {
                     out.push(mk(format!("{}:side-effect-on-error", op), "an Err result came with a modifying backend request".into()));
                 }
                 // guest content and metadata unchanged
-                if let Some(m) = sweep(&dev, &img.rd, bs as usize, false).first() {
+                if let Some(m) = if ii == RAGGED { None } else { sweep(&dev, &img.rd, bs as usize, false).first().cloned() } {
                     out.push(mk(format!("{}:content-changed-on-error", op), m.what.clone()));
                 }
             }
